@@ -28,7 +28,7 @@ def run(tier):
     return ec.run_property(PID, tier, jobs,
                            'generated programs whose tasks call sub-workflows (plain and with-items callers, child outcomes from the oracle), '
                            'some cancelled or paused/resumed midway; non-trivial = distinct runs with at least one sub-workflow execution',
-                           _nontrivial)
+                           _nontrivial, prescribed=True)
 
 
 def replay(path):
